@@ -152,7 +152,7 @@ fn c12_try_from_secs_f64_err_iff_but_2p63() {
 //@harness c12_try_from_secs_f64_value
 //@target SignedDuration::try_from_secs_f64 (src/signed_duration.rs)
 //@prop C12 C05
-//@tier quick
+//@tier thorough
 //@mode rel
 //@timeout 1200
 //@doc for every representable f64 x (-2^63 <= x < 2^63, subnormals and -0.0 included): the result is Ok, well-formed (|nanos| < 10^9, seconds and nanoseconds never of opposite sign), of the sign of x, its whole seconds are trunc(x) exactly, and its sub-second part n (a carry n = 10^9 goes to the seconds) is fract(x) * 10^9 rounded to nearest: |n - fract(x) * 10^9| <= 1/2 + 2^-24 over exact rationals (2^-24 = the one rounding of the f64 product) -- full domain, bit-precise
@@ -230,7 +230,7 @@ fn c12_from_secs_f64_is_try() {
 //@harness c12_from_secs_f32_is_try
 //@target SignedDuration::from_secs_f32 (src/signed_duration.rs)
 //@prop C12 C05
-//@tier quick
+//@tier thorough
 //@mode rel
 //@timeout 900
 //@doc for every representable f32 x (-2^63 <= x < 2^63): from_secs_f32(x) does not panic and returns exactly what try_from_secs_f32(x) returns
@@ -247,7 +247,7 @@ fn c12_from_secs_f32_is_try() {
 //@harness c12_as_f64_sign_and_whole_seconds
 //@target SignedDuration::as_secs_f64, SignedDuration::as_millis_f64 (src/signed_duration.rs)
 //@prop C12
-//@tier quick
+//@tier thorough
 //@mode rel
 //@timeout 1200
 //@doc for every well-formed duration d (all i64 seconds, |nanos| < 10^9): as_secs_f64(d) and as_millis_f64(d) are finite and have the sign of d (0.0 only for the zero duration); for a whole number of seconds with |secs| <= 2^53 (resp. 2^43) they equal secs (resp. secs * 1000) exactly -- full domain, bit-precise (the 1-ulp / 2-ulp accuracy is the bounded native check c12_native_as_float_accuracy)
